@@ -272,6 +272,11 @@ def exec_pause(case, d):
         out['faults']['F5'] = out['faults'].get('F5', 0) + len(plan)
         out['probes']['pause_points'] += 1
         tag = 'single' if len(plan) == 1 else 'multi'
+        for v in r.violations:       # the ordinary oracles also run on every paused run (C13 on F5 runs)
+            if not any(x['prop'] == v['prop'] and x['clause'] == v['clause'] and x['site'] == v['site'] for x in viol):
+                v = dict(v)
+                v['msg'] = 'pauses %s: %s' % (plan, v['msg'])
+                viol.append(v)
         if r.status != 'ok':
             add('paused_run_fails', 'pauses %s: %s %s' % (plan, r.status, r.exc), site=tag)
             continue
